@@ -94,6 +94,8 @@ theorem tagOf_ne_fuel {ks : List Key} {vs : List Val} {e : Err} (h : tagOf ks vs
   · cases h
   · split at h <;> cases h <;> decide
   · cases h; decide
+  · cases h; decide
+  · cases h; decide
 
 /-! ### closedness of parts of closed values -/
 
